@@ -162,6 +162,8 @@ func c13Corrupt(src string, rec *evid.Recorder) *Fail {
 			case o.Type == token.SEMICOLON && !atEnd && in[i].Type == token.SEMICOLON:
 				i++
 				j++
+			case (o.Type == token.LPAREN || o.Type == token.RPAREN) && (atEnd || in[i].Type != o.Type):
+				j++ // parenthesis added by the printer
 			case o.Type == token.SEMICOLON:
 				off := len(src)
 				if !atEnd {
@@ -174,8 +176,6 @@ func c13Corrupt(src string, rec *evid.Recorder) *Fail {
 			case atEnd && o.Type == token.RBRACE:
 				adds = append(adds, ins{len(src), "}"})
 				j++
-			case (o.Type == token.LPAREN || o.Type == token.RPAREN) && (atEnd || in[i].Type != o.Type):
-				j++ // parenthesis added by the printer
 			default:
 				i++
 				j++
